@@ -193,17 +193,24 @@ func (exec *Executor) executeDateTimeMethod(
 	arg := node.Operand()
 	var timeVal types.DateTime
 	var err error
+	precision := -1
 
 	// .datetime(template) has an argument, the rest of the methods don't have
 	// an argument.  So we handle that separately.
 	if op == ast.UnaryDateTime && arg != nil {
 		err = exec.parseDateTimeFormat(datetime, arg)
-	} else {
-		timeVal, err = exec.parseDateTime(ctx, op, datetime, arg)
+	} else if precision, err = timePrecision(op, arg); err == nil {
+		// The precision is that of the result, so parse without it and
+		// round after the cast below, as PostgreSQL does.
+		timeVal, err = exec.parseDateTime(ctx, op, datetime, nil)
 	}
 	if err != nil {
 		return exec.returnError(err)
 	}
+
+	// A value that carries no offset of its own shows, once cast to
+	// timestamptz, the offset of the context time zone.
+	_, hasOffset := timeVal.(*types.TimestampTZ)
 
 	// The parsing above processes the entire input string and returns the
 	// best fitted datetime type. So, if this call is for a specific datatype,
@@ -220,17 +227,17 @@ func (exec *Executor) executeDateTimeMethod(
 	case ast.UnaryTimestamp:
 		timeVal, err = exec.castTimestamp(ctx, timeVal, datetime)
 	case ast.UnaryTimestampTZ:
-		if _, ok := timeVal.(*types.Timestamp); ok && arg != nil {
-			timeVal, err = exec.castTimestampTZPrecision(ctx, datetime, arg)
-		} else {
-			timeVal, err = exec.castTimestampTZ(ctx, timeVal, datetime)
-		}
+		timeVal, err = exec.castTimestampTZ(ctx, timeVal, datetime)
 	case ast.UnaryExists, ast.UnaryNot, ast.UnaryIsUnknown, ast.UnaryPlus, ast.UnaryMinus, ast.UnaryFilter:
 		return statusFailed, fmt.Errorf("%w: unrecognized jsonpath datetime method: %v", ErrInvalid, op)
 	}
 
 	if err != nil {
 		return exec.returnError(err)
+	}
+
+	if precision >= 0 {
+		timeVal = roundDateTime(ctx, timeVal, precision, !hasOffset)
 	}
 
 	next := node.Next()
@@ -424,35 +431,42 @@ func (exec *Executor) castTimestamp(
 	}
 }
 
-// castTimestampTZPrecision casts the timestamp without time zone in datetime
-// to [types.TimestampTZ] and then rounds it to the precision in arg, as
-// PostgreSQL does. Rounding the wall-clock time before the cast can carry it
-// over a change of the zone's offset, where it is read with the other offset
-// or does not exist at all: "2023-11-05 01:59:59.7".timestamp_tz(0) in
-// America/New_York became 02:00:00-05:00, an hour after 01:59:59.7-04:00.
-func (exec *Executor) castTimestampTZPrecision(
+// roundDateTime rounds the fractional seconds of timeVal to precision digits.
+// It is applied to the result of a cast, not to the value the cast starts
+// from: where rounding carries the time over a change of the context zone's
+// offset, a wall-clock time rounded before its cast into the zone (or an
+// instant rounded before its cast out of it) is converted with the offset of
+// the other side of the change. "2023-11-05 01:59:59.7".timestamp_tz(0) in
+// America/New_York became 02:00:00-05:00, an hour after 01:59:59.7-04:00, and
+// "2023-11-05T05:59:59.7Z".timestamp(0) became 01:00:00 although
+// .timestamp() is 01:59:59.7. If inZone is true a timestamptz shows the offset
+// in force in the context time zone at the rounded instant; otherwise it keeps
+// its own.
+func roundDateTime(
 	ctx context.Context,
-	datetime string,
-	arg ast.Node,
-) (types.DateTime, error) {
-	precision, err := timePrecision(ast.UnaryTimestampTZ, arg)
-	if err != nil {
-		return nil, err
-	}
-
-	unrounded, err := exec.parseDateTime(ctx, ast.UnaryTimestampTZ, datetime, nil)
-	if err != nil {
-		return nil, err
-	}
-
-	tstz, err := exec.castTimestampTZ(ctx, unrounded, datetime)
-	if err != nil {
-		return nil, err
-	}
-
-	// The offset is the one in force at the rounded instant.
+	timeVal types.DateTime,
+	precision int,
+	inZone bool,
+) types.DateTime {
 	unit := time.Second / time.Duration(math.Pow10(precision))
-	return types.NewTimestampTZ(ctx, tstz.Round(unit).In(types.TZFromContext(ctx))), nil
+
+	switch tv := timeVal.(type) {
+	case *types.Time:
+		return types.NewTime(tv.Round(unit))
+	case *types.TimeTZ:
+		return types.NewTimeTZ(tv.Round(unit))
+	case *types.Timestamp:
+		return types.NewTimestamp(tv.Round(unit))
+	case *types.TimestampTZ:
+		rounded := tv.Round(unit)
+		if inZone {
+			rounded = rounded.In(types.TZFromContext(ctx))
+		}
+		return types.NewTimestampTZ(ctx, rounded)
+	default:
+		// A date has no fractional seconds.
+		return timeVal
+	}
 }
 
 // castTimestampTZ casts timeVal to [types.TimestampTZ]. The datetime param is
